@@ -131,6 +131,25 @@ CLAIMED.update({
             "DESIGN.md 5 C22"),
 })
 
+CLAIMED.update({
+    "C30": ("model_checking",
+            "NameRc.tla: reference counts, handles and copy-on-write nodes with one action per public operation; RcInv model-checked over "
+            "all histories up to the bound (also interleaved over two threads); every history replayed on real values with a witness Arc "
+            "making the strong count observable after every step, freeing checked at the end; free-running threads checked at quiescent "
+            "points by the TLC monitor; thorough tier replays a sample under Miri.",
+            "std's Arc atomicity and the hardware memory model are trusted; Miri only in the thorough tier.",
+            "TLA+ reference-count state machine; TLC-enumerated histories replayed on real values; TLC monitor; Miri as substrate",
+            "DESIGN.md 5 C30"),
+    "C31": ("model_checking",
+            "FileId.tla: register + per-thread allocation program, all interleavings model-checked (and the load-then-store variant "
+            "refuted); a cfg-guarded wrapper around the real counter lets the harness force every interleaving of 2 threads x 2 "
+            "allocations (sampled for more) and TLC validates each recorded run; pack/unpack observed through located names for "
+            "63-bit ids; concurrent shared-schema workloads compared with sequential results by the TLC monitor.",
+            "The hook serialises counter operations: memory ordering is argued, not checked.",
+            "TLA+ model of the atomic counter; forced schedules on the real code validated by TLC trace validation",
+            "DESIGN.md 5 C31"),
+})
+
 NOT_APPLICABLE = {}
 
 ALL = ["C%02d" % i for i in range(1, 34)]
